@@ -100,6 +100,42 @@ def marker_violations(case, obs, counters=None):
     return out
 
 
+def dot_probe_violations(case, obs, counters=None):
+    """'.' in any statement = base + bytes before it: every self-address probe ('.word 125252, 52525, .',
+    also inside .repeat bodies) must hold the address at which it lies in the image."""
+    from ..gen import DOT_MAGIC
+    expected = getattr(case, "dot_probes", None)
+    if expected is None and getattr(case, "prog", None) is not None:
+        expected = getattr(case.prog, "dot_probes", None)
+        case.dot_probes = expected
+    if not expected or obs["status"] != "ok" or not obs.get("result"):
+        return []
+    if any(d[0] in ("error", "critical") for d in obs["diags"]):
+        return []
+    base, code = obs["result"][0], obs["result"][1]
+    offs = []
+    pos = code.find(DOT_MAGIC)
+    while pos >= 0:
+        offs.append(pos)
+        pos = code.find(DOT_MAGIC, pos + 1)
+    if len(offs) != expected:
+        if counters is not None:
+            counters["dot_probe_count_unexpected"] = counters.get("dot_probe_count_unexpected", 0) + 1
+        return []       # accidental magic bytes in data, or sizes the generator could not foresee
+    out = []
+    for o in offs:
+        if counters is not None:
+            counters["probe:dot_probes_checked"] = counters.get("probe:dot_probes_checked", 0) + 1
+        w = code[o + 4:o + 6]
+        want = (base + o) % 65536
+        if len(w) < 2 or (w[0] | (w[1] << 8)) != want:
+            got = (w[0] | (w[1] << 8)) if len(w) == 2 else None
+            out.append(("dot-probe", "the statement '.word 125252, 52525, .' that lies at image address %o (base %o + %d) "
+                        "holds %s as the value of '.'" % (want, base, o, "%o" % got if got is not None else "nothing")))
+            break
+    return out
+
+
 def violation_record(case, sched, viols, how):
     w = eb.witness_case(case, sched) if sched else case
     key, what = viols[0]
@@ -112,6 +148,7 @@ def violation_record(case, sched, viols, how):
         "files": {p: b for p, b in w.files.items()},
         "schedule": [(case.defs[k]["name"], case.defs[k]["file"], p) for k, p in sched],
         "markers": getattr(case, "markers", None),
+        "dot_probes": getattr(case, "dot_probes", None),
     }
 
 
@@ -159,7 +196,7 @@ def run_one(ns, i, seed_i, tier):
         import struct
         got = struct.pack("<HH", obs0["result"][0], len(obs0["result"][1])) + obs0["result"][1]
         counters["probe:practice_image_equals_out_bin"] = int(got == case.expected_bin)
-    v0 = monitor_violations(obs0) + marker_violations(case, obs0, counters)
+    v0 = monitor_violations(obs0) + marker_violations(case, obs0, counters) + dot_probe_violations(case, obs0, counters)
     if v0:
         def bad(c, s):
             c.markers = getattr(case, "markers", None)
@@ -200,13 +237,14 @@ def run_one(ns, i, seed_i, tier):
                           "delayed": [(case.defs[k]["name"], p) for k, p in sched][:6],
                           "trace_entries": tr.get("entries"), "size_committed_while_deferred": tr.get("deferred_size_entries"),
                           "blocks": tr.get("blocks"), "first_source_head": case.sources[0][1][:300]}
-            vs = monitor_violations(obs)
+            vs = monitor_violations(obs) + dot_probe_violations(case, obs, counters)
             if vs:
                 counters["monitor_failures_under_schedule"] += 1
                 w = eb.witness_case(case, sched)
+                w.dot_probes = getattr(case, "dot_probes", None)
                 wobs = eb.run_case(ns, w, trace=True, force_budget=sched_budget)
                 counters["evaluations"] += 1
-                wv = monitor_violations(wobs)
+                wv = monitor_violations(wobs) + dot_probe_violations(w, wobs)
                 if wv:
                     counters["confirmed"] += 1
 
@@ -235,8 +273,9 @@ def replay(ns, v):
     sources = [(p, files[p].decode("utf-8")) for p in v["sources"]]
     case = eb.Case(sources, files, v.get("charset", "bk"), "replay")
     case.markers = v.get("markers")
+    case.dot_probes = v.get("dot_probes")
     obs = eb.run_case(ns, case, trace=True, listing=True)
-    vs = monitor_violations(obs) + marker_violations(case, obs)
+    vs = monitor_violations(obs) + marker_violations(case, obs) + dot_probe_violations(case, obs)
     print("replay C02: status %s, %d trace entries, monitor: %s" % (obs["status"], (obs.get("trace") or {}).get("entries", 0), vs[:2]))
     for key, what in vs[:1]:
         res["violations"].append({"key": "trace:" + key, "what": what})
